@@ -831,9 +831,13 @@ Proof.
   rewrite Hl, Hv. reflexivity.
 Qed.
 
+(* histories of the crash theorems: guarded writes; recoveries run against a healthy storage (the
+   storage-fault event is exercised by the correspondence only: a failing schema-change flush
+   during replay is only logged by the code, so no unconditional statement holds for it) *)
 Definition ev_guard (v : variant) (san : bytes -> bytes) (e : event) : Prop :=
   match e with
   | EWrite now ws _ => Forall (write_guard v san now) ws
+  | ERecoverFault _ _ => False
   | _ => True
   end.
 
@@ -1043,7 +1047,7 @@ Qed.
 Lemma step_inv v san s e :
   Inv v san s -> ev_guard v san e -> quiet_at v s e -> Inv v san (step v san s e).
 Proof.
-  intros HI G Q. pose proof HI as [If Ia Ic Id Ip Ii]. destruct e as [hold repl rot|now ws tail_ok| | |now n|]; cbn [step].
+  intros HI G Q. pose proof HI as [If Ia Ic Id Ip Ii]. destruct e as [hold repl rot|now ws tail_ok| | |now n|now fd|]; cbn [step]; [| | | | |destruct G|].
   - (* start *)
     destruct (s_run s) eqn:Er; [exact HI|].
     destruct (Ii eq_refl) as [Ea [Ec [Erb Epd]]].
